@@ -6,6 +6,7 @@ package main
 // demands that every base-table reference is restricted to the ledger name of the store.
 //
 // input : {"method":M, "ledger":NAME, "pit":µs|null, "vol":bool, "eff":bool, "filter":JSON-string|"" , "arg":S}
+//         (+ "lattice":"structure" on the cases of the filter-structure lattice, see rsStructureFilters)
 // output: {"sql":[text…], "err":S, "copy":[[args of one COPY row]…]}
 
 import (
@@ -267,4 +268,139 @@ func genReadSQL(r *rng, n int, tier string, emit func(J)) {
 	for _, f := range rsFilters["logs"] {
 		emit(J{"method": "GetLogs", "ledger": name, "pit": nil, "vol": false, "eff": false, "filter": f, "arg": ""})
 	}
+
+	// ---- the filter-structure lattice: every sub-expression of every composite is a case of its own, under the same
+	// parameters, so that the check can compare skeleton($not F) with NOT skeleton(F) etc. on the captured SQL
+	date := pits[2]
+	structure := func(family string, methods []string, pitList []any, withVol bool) {
+		fs := rsStructureFilters(family, r, tier)
+		for _, m := range methods {
+			for _, pit := range pitList {
+				vols := [][2]bool{{false, false}}
+				if withVol {
+					vols = append(vols, [2]bool{true, true})
+				}
+				for _, ve := range vols {
+					emit(J{"method": m, "ledger": name, "pit": pit, "vol": ve[0], "eff": ve[1], "filter": "", "arg": "", "lattice": "structure"})
+					for _, f := range fs {
+						emit(J{"method": m, "ledger": name, "pit": pit, "vol": ve[0], "eff": ve[1], "filter": f, "arg": "", "lattice": "structure"})
+					}
+				}
+			}
+		}
+	}
+	structure("accounts", []string{"GetAccountsWithVolumes", "CountAccounts"}, []any{nil, date}, true)
+	structure("transactions", []string{"GetTransactions", "CountTransactions"}, []any{nil, date}, true)
+	structure("aggregated", []string{"GetAggregatedBalances"}, []any{nil, date}, false)
+	structure("logs", []string{"GetLogs"}, []any{nil}, false)
+}
+
+// ---------------------------------------------------------------- filter-structure lattice
+
+// the leaves of each listing: every kind of matcher, among them the ones whose SQL is an unparenthesised `a or b`
+// (account on transactions) or `a and b …` (address patterns with wildcard segments)
+var rsLeaves = map[string][]string{
+	"accounts": {
+		`{"$match":{"address":"users:1"}}`,
+		`{"$match":{"address":"users:"}}`,
+		`{"$match":{"address":":x:"}}`,
+		`{"$match":{"metadata[tier]":"gold"}}`,
+		`{"$lt":{"balance[USD]":100}}`,
+		`{"$gte":{"balance":-5}}`,
+	},
+	"transactions": {
+		`{"$match":{"reference":"ref1"}}`,
+		`{"$lte":{"timestamp":"2023-05-06T07:08:09Z"}}`,
+		`{"$match":{"account":"bank"}}`,
+		`{"$match":{"account":"users:"}}`,
+		`{"$match":{"source":"world"}}`,
+		`{"$match":{"source":"users::main"}}`,
+		`{"$match":{"destination":"bank"}}`,
+		`{"$match":{"destination":":1"}}`,
+		`{"$match":{"metadata[note]":"x or y"}}`,
+	},
+	"aggregated": {
+		`{"$match":{"address":"users:1"}}`,
+		`{"$match":{"address":"users:"}}`,
+		`{"$match":{"metadata[tier]":"gold"}}`,
+	},
+	"logs": {
+		`{"$gte":{"date":"2023-05-06T07:08:09Z"}}`,
+		`{"$lt":{"date":"2024-05-06T07:08:09Z"}}`,
+	},
+}
+
+type rsFx struct {
+	op   string // "", "$not", "$and", "$or"
+	leaf string
+	kids []rsFx
+}
+
+func (f rsFx) render() string {
+	switch f.op {
+	case "":
+		return f.leaf
+	case "$not":
+		return `{"$not":` + f.kids[0].render() + `}`
+	}
+	parts := make([]string, len(f.kids))
+	for i, k := range f.kids {
+		parts[i] = k.render()
+	}
+	return `{"` + f.op + `":[` + strings.Join(parts, ",") + `]}`
+}
+
+// rsStructureFilters returns composites and ALL their sub-expressions (children before parents), without duplicates.
+func rsStructureFilters(family string, r *rng, tier string) []string {
+	leaves := rsLeaves[family]
+	n := len(leaves)
+	L := func(i int) rsFx { return rsFx{leaf: leaves[((i%n)+n)%n]} }
+	not := func(x rsFx) rsFx { return rsFx{op: "$not", kids: []rsFx{x}} }
+	and := func(xs ...rsFx) rsFx { return rsFx{op: "$and", kids: xs} }
+	or := func(xs ...rsFx) rsFx { return rsFx{op: "$or", kids: xs} }
+	var out []string
+	seen := map[string]bool{}
+	var add func(x rsFx)
+	add = func(x rsFx) {
+		for _, k := range x.kids {
+			add(k)
+		}
+		s := x.render()
+		if !seen[s] {
+			seen[s] = true
+			out = append(out, s)
+		}
+	}
+	offs := [][2]int{{1, 2}}
+	if tier != "quick" {
+		offs = nil
+		for a := 1; a < n; a++ {
+			offs = append(offs, [2]int{a, a + 1})
+		}
+	} else if n > 2 {
+		a := 1 + r.n(n-1) // the seed picks which other leaves a leaf is paired with
+		offs = [][2]int{{a, a + 1 + r.n(n-1)}}
+	}
+	for i := 0; i < n; i++ {
+		add(not(L(i)))
+		add(not(not(L(i))))
+		add(and(L(i)))
+		add(or(L(i)))
+		for _, o := range offs {
+			j, k := i+o[0], i+o[1]
+			add(not(and(L(i), L(j))))
+			add(not(or(L(i), L(j))))
+			add(and(L(i), L(j), L(k)))
+			add(not(or(L(i), L(j), L(k))))
+			// three deep
+			add(not(or(L(i), and(L(j), not(L(k))))))
+			add(and(not(or(L(i), L(j))), L(k)))
+			add(or(and(L(i), not(L(j))), not(not(L(k)))))
+			add(not(and(or(L(i), L(j)), or(not(L(k)), L(i)))))
+		}
+	}
+	add(not(and()))
+	add(not(or()))
+	add(and(or(), L(0)))
+	return out
 }
